@@ -1,6 +1,7 @@
 (* C14 — property theorems only.  Each is closed by [exact <lemma>] and followed by
    Print Assumptions; the statements are pinned here so they cannot be quietly weakened. *)
-From FB Require Import C14.Model C14.Theory C14.Theory2 C14.Theory3 C14.Theory4 C14.Theory5 C14.Theory6.
+From FB Require Import C14.Model C14.Theory C14.Theory2 C14.Theory3 C14.Theory4 C14.Theory5 C14.Theory6 C14.Theory7.
+From Coq Require Import Permutation.
 
 (* ---- 1. jar names = mapping names ---- *)
 
@@ -34,10 +35,123 @@ Theorem C14_mapping_name_total : forall T c, acyclic T -> exists r, mapping_name
 Proof. exact mapping_name_total. Qed.
 Print Assumptions C14_mapping_name_total.
 
-(* the fuel of the model (table size + 1) is enough exactly on the acyclic tables; decidable *)
+(* acyclicity is decidable (the fuel of the model, table size + 1, is enough exactly on the acyclic tables) *)
 Theorem C14_acyclic_decidable : forall T, acyclicb T = true <-> acyclic T.
 Proof. exact acyclicb_spec. Qed.
 Print Assumptions C14_acyclic_decidable.
+
+(* ---- 1b. cyclic tables: an error, on both sides, exactly then (repaired code, fix c9cdfec) ---- *)
+
+(* the translation (MyRemapper::new) fails exactly on the cyclic tables *)
+Theorem C14_translation_err_iff : forall T, translation T = Err <-> ~ acyclic T.
+Proof. exact translation_err_iff. Qed.
+Print Assumptions C14_translation_err_iff.
+
+Theorem C14_translation_ok_iff : forall T, (exists m, translation T = Ok m) <-> acyclic T.
+Proof. exact translation_ok_iff. Qed.
+Print Assumptions C14_translation_ok_iff.
+
+Theorem C14_mapping_name_ok_iff : forall T c, (exists r, mapping_name T c = Ok r) <-> acyclic T.
+Proof. exact mapping_name_ok_iff. Qed.
+Print Assumptions C14_mapping_name_ok_iff.
+
+(* Theorem 1 with the error case characterised instead of excluded *)
+Theorem C14_jar_mapping_agree_or_cyclic : forall J T,
+  NoDup (keys T) -> all_apply J T ->
+  forall c,
+    (acyclic T /\ exists r, jar_name J T c = Ok r /\ mapping_name T c = Ok r /\ trans T c r) \/
+    (~ acyclic T /\ jar_name J T c = Err /\ mapping_name T c = Err).
+Proof. exact jar_mapping_agree_or_cyclic. Qed.
+Print Assumptions C14_jar_mapping_agree_or_cyclic.
+
+Theorem C14_nest_jar_cyclic_err : forall rm J T, ~ acyclic (this_nests J T) -> nest_jar rm J T = Err.
+Proof. exact nest_jar_cyclic_err. Qed.
+Print Assumptions C14_nest_jar_cyclic_err.
+
+Theorem C14_nest_jar_ok_acyclic : forall rm J T out, nest_jar rm J T = Ok out -> acyclic (this_nests J T).
+Proof. exact nest_jar_ok_acyclic. Qed.
+Print Assumptions C14_nest_jar_ok_acyclic.
+
+Theorem C14_apply_cyclic_err : forall T M T',
+  map_nests T M = Ok T' -> ~ acyclic T \/ ~ acyclic T' -> apply_nests M T = OErr.
+Proof. exact apply_cyclic_err. Qed.
+Print Assumptions C14_apply_cyclic_err.
+
+Theorem C14_apply_ok_acyclic : forall T M M1,
+  apply_nests M T = OOk M1 -> acyclic T /\ exists T', map_nests T M = Ok T' /\ acyclic T'.
+Proof. exact apply_ok_acyclic. Qed.
+Print Assumptions C14_apply_ok_acyclic.
+
+Theorem C14_undo_cyclic_err : forall T M, ~ acyclic T -> undo_nests M T = OErr.
+Proof. exact undo_cyclic_err. Qed.
+Print Assumptions C14_undo_cyclic_err.
+
+(* no input makes apply or undo panic (after fixes 486c230 and c9cdfec) *)
+Theorem C14_apply_never_panics : forall M T, apply_nests M T <> OPanic.
+Proof. exact apply_never_panics. Qed.
+Print Assumptions C14_apply_never_panics.
+
+Theorem C14_undo_never_panics : forall M T, undo_nests M T <> OPanic.
+Proof. exact undo_never_panics. Qed.
+Print Assumptions C14_undo_never_panics.
+
+(* translating an ACYCLIC table through well-formed injective mappings can give a CYCLIC table:
+   c1 in Outer, c2 in c1; c1 -> P__Q, c2 -> P  (pinned witness; apply answers with the error) *)
+Theorem C14_map_nests_can_create_cycle :
+  NoDup (keys cyT) /\ acyclic cyT /\ wf cyM = true /\
+  NoDup (map snd (class_pairs (ms_classes cyM) 0 1)) /\
+  map_nests cyT cyM = Ok cyT' /\ ~ acyclic cyT' /\
+  apply_nests cyM cyT = OErr.
+Proof. exact map_nests_can_create_cycle. Qed.
+Print Assumptions C14_map_nests_can_create_cycle.
+
+(* it cannot when no target name has the already nested form C__D and the class map is injective on
+   the classes and enclosing classes of the table *)
+Theorem C14_map_nests_acyclic : forall T M B T',
+  mk_bremap M = Ok B ->
+  NoDup (keys T) ->
+  inj_on (b_map_class B) (keys T ++ map n_encl T) ->
+  (forall n, In n T -> rsplit_uu (b_map_class B (n_class n)) = None) ->
+  map_nests T M = Ok T' ->
+  acyclic T -> acyclic T'.
+Proof. exact map_nests_acyclic. Qed.
+Print Assumptions C14_map_nests_acyclic.
+
+(* ---- 1c. the order of the table ---- *)
+
+(* the mappings side does not depend on it *)
+Theorem C14_mapping_name_perm : forall T T' c,
+  NoDup (keys T) -> Permutation T T' -> mapping_name T c = mapping_name T' c.
+Proof. exact mapping_name_perm. Qed.
+Print Assumptions C14_mapping_name_perm.
+
+(* order-independent premise: every listed class is in the jar and satisfies the rule of its kind *)
+Theorem C14_all_in_jar_all_apply : forall J T,
+  (forall n, In n T -> In (n_class n) (jar_classes J) /\ kind_rule J n = true) -> all_apply J T.
+Proof. exact all_in_jar_all_apply. Qed.
+Print Assumptions C14_all_in_jar_all_apply.
+
+Theorem C14_jar_mapping_agree_any_order : forall J T T',
+  NoDup (keys T) ->
+  (forall n, In n T -> In (n_class n) (jar_classes J) /\ kind_rule J n = true) ->
+  Permutation T T' ->
+  forall c, jar_name J T' c = mapping_name T c.
+Proof. exact jar_mapping_agree_any_order. Qed.
+Print Assumptions C14_jar_mapping_agree_any_order.
+
+(* the filter is order dependent for a listed class that is NOT in the jar but is created as a
+   missing enclosing class (jar {Y}; X in Z, Y in X): pinned example, outside the premise above *)
+Theorem C14_filter_order_dependent :
+  Permutation [od_nX; od_nY] [od_nY; od_nX] /\
+  ~ all_apply od_J [od_nX; od_nY] /\ all_apply od_J [od_nY; od_nX] /\
+  ~ all_in_jar od_J [od_nY; od_nX] /\
+  jar_name od_J [od_nX; od_nY] od_Y = Ok [88; 36; 89] /\
+  jar_name od_J [od_nY; od_nX] od_Y = Ok [90; 36; 88; 36; 89] /\
+  mapping_name [od_nX; od_nY] od_Y = Ok [90; 36; 88; 36; 89] /\
+  mapping_name [od_nY; od_nX] od_Y = Ok [90; 36; 88; 36; 89] /\
+  new_classes od_J [od_nX; od_nY] = [od_X] /\ new_classes od_J [od_nY; od_nX] = [od_X; od_Z].
+Proof. exact filter_order_dependent. Qed.
+Print Assumptions C14_filter_order_dependent.
 
 (* ---- 2. which listed classes are nested ---- *)
 
